@@ -71,6 +71,17 @@ package server
 //@   requires config != nil
 //@   modifies nothing
 //@   ensures result == config._requirePass
+//@ func Config.protectedMode
+//@   requires config != nil
+//@   modifies nothing
+//@   ensures result == config._protectedMode
+// Protected mode (C15), as the refusal message words it: protected mode is enabled (flag and configuration), no bind
+// address other than loopback was given, and no password is required.
+//@ ghost macro protectedSpec(s) = s.opts.ProtectedMode != "no" && (s.host == "" || s.host == "127.0.0.1" || s.host == "::1" || s.host == "localhost") && s.config._protectedMode != "no" && s.config._requirePass == ""
+//@ func Server.isProtected
+//@   requires s != nil && s.config != nil
+//@   modifies nothing
+//@   ensures [protected-mode-definition] result == protectedSpec(s)
 //@ func Server.caughtUpOnce
 //@   requires s != nil
 //@   modifies nothing
@@ -602,6 +613,8 @@ package server
 // flag is false only when the buffer is empty. `mine` is thread-local. The obligation: at every socket write of this
 // thread, everything it logged has been handed to the file.
 //@ ghost macro flagInv(s) = !s.aofdirty ==> len(s.aofbuf) == 0
+//@ ghost scratch protSeen bool
+//@ ghost macro loopbackPeer(a) = hasPrefix(a, "127.0.0.1:") || hasPrefix(a, "[::1]:")
 //@ func Server.netServe
 //@   lockcheck
 //@   threads-inline
@@ -628,6 +641,10 @@ package server
 // once per socket read; what does not fit is parked in client.in and looked at only after the *next* socket read. So a
 // socket read must never return more than the reader takes, or the tail of a pipeline waits for bytes that may never come.
 //@   at-call net.Conn.Read#1 [read-fits-the-pipeline-reader] len(arg0) <= len(client.pr.packet)
+// C15 (protected mode): nothing is read from a peer that is not on the loopback interface when the protected-mode
+// test, made for this connection, said yes
+//@   set-after-call Server.isProtected#1 protSeen = result
+//@   at-call net.Conn.Read#1 [protected-mode-refuses-before-any-read] loopbackPeer(client.remoteAddr) || !protSeen
 // the two places where buffered replies (client.out) go to the socket
 //@   at-call net.Conn.Write#2 [reply-after-flush] mine <= nflushed
 //@   at-call io.Writer.Write#1 [reply-after-flush.going-live] mine <= nflushed
